@@ -391,6 +391,8 @@ pub struct ASpace {
     pub multiplier: f32,
     pub conds: String,
     pub sysconds: String,
+    /// SPACE-TYPE attribute (HULC writes the same name as in SYSTEM-CONDITIONS; old LIDER files have only this one)
+    pub spacetype: String,
     pub walls: Vec<AWall>,
     pub air_changes: Option<f32>,
 }
@@ -432,6 +434,8 @@ pub struct ABuilding {
     pub ventilation: f32,
     pub n50_test: Option<f32>,
     pub name: String,
+    /// (block name, attribute) pairs left out of the printed blocks
+    pub omit: Vec<(String, String)>,
 }
 
 fn r2(v: f64) -> f32 {
@@ -548,12 +552,14 @@ pub struct BuildCfg {
     pub schedules: bool,
     /// write a HEIGHT in the space block that differs from the floor's SPACE-HEIGHT
     pub odd_space_height: bool,
+    /// leave out attributes that have a documented legacy default (the abstract building then holds the default)
+    pub legacy_absent: bool,
     pub max_floors: usize,
     pub max_spaces_per_floor: usize,
 }
 impl BuildCfg {
     pub fn full() -> Self {
-        BuildCfg { turned_spaces: true, own_polygon_walls: true, shades: true, schedules: true, odd_space_height: true, max_floors: 3, max_spaces_per_floor: 3 }
+        BuildCfg { turned_spaces: true, own_polygon_walls: true, shades: true, schedules: true, odd_space_height: true, legacy_absent: false, max_floors: 3, max_spaces_per_floor: 3 }
     }
 }
 
@@ -672,7 +678,8 @@ pub fn gen_building(rng: &mut Rng, cfg: &BuildCfg) -> ABuilding {
                 inside: if rng.chance(0.8) { Some(stype == "CONDITIONED" || rng.chance(0.3)) } else { None },
                 multiplier: if rng.chance(0.1) { 2.0 } else { 1.0 },
                 conds: if stype == "UNHABITED" && rng.chance(0.6) { format!("NIVEL_ESTANQUEIDAD_{}", 1 + rng.usize(5)) } else { conds.clone() },
-                sysconds: conds,
+                sysconds: conds.clone(),
+                spacetype: conds,
                 walls: vec![],
                 air_changes: if rng.chance(0.2) { Some(rng.dec(0.2, 2.0, 2) as f32) } else { None },
             };
@@ -794,6 +801,65 @@ pub fn gen_building(rng: &mut Rng, cfg: &BuildCfg) -> ABuilding {
         }
     }
 
+    // legacy forms: attributes with a documented default are left out and the abstract building holds the default
+    let mut omit: Vec<(String, String)> = vec![];
+    if cfg.legacy_absent {
+        let other_types = ["Residencial", "Oficina_8h_media", "Comercial_12h_alta"];
+        for f in floors.iter_mut() {
+            for s in f.spaces.iter_mut() {
+                if rng.chance(0.5) {
+                    // the SPACE-TYPE names something else than the two condition attributes
+                    if rng.chance(0.7) {
+                        s.spacetype = other_types[rng.usize(3)].to_string();
+                    }
+                    match rng.usize(3) {
+                        0 => {
+                            omit.push((s.name.clone(), "SPACE-CONDITIONS".into()));
+                            s.conds = s.spacetype.clone();
+                        }
+                        1 => {
+                            omit.push((s.name.clone(), "SYSTEM-CONDITIONS".into()));
+                            s.sysconds = s.spacetype.clone();
+                        }
+                        _ => {
+                            omit.push((s.name.clone(), "SPACE-CONDITIONS".into()));
+                            omit.push((s.name.clone(), "SYSTEM-CONDITIONS".into()));
+                            s.conds = s.spacetype.clone();
+                            s.sysconds = s.spacetype.clone();
+                        }
+                    }
+                }
+                for w in s.walls.iter_mut() {
+                    if (w.btype == "EXTERIOR-WALL" || w.btype == "ROOF") && rng.chance(0.25) {
+                        // CONSTRUCTION without ABSORPTANCE: 0.60
+                        w.absorptance = 0.6;
+                        omit.push((format!("{}{:.2}", w.layers, w.absorptance), "ABSORPTANCE".into()));
+                    }
+                    for win in w.windows.iter() {
+                        if win.overhang.is_none() && rng.chance(0.4) {
+                            for a in ["OVERHANG-A", "OVERHANG-B", "OVERHANG-W", "OVERHANG-D", "OVERHANG-ANGLE"] {
+                                omit.push((win.name.clone(), a.into()));
+                            }
+                        }
+                        if win.left_fin.is_none() && rng.chance(0.4) {
+                            for a in ["LEFT-FIN-A", "LEFT-FIN-B", "LEFT-FIN-H", "LEFT-FIN-D"] {
+                                omit.push((win.name.clone(), a.into()));
+                            }
+                        }
+                        if win.right_fin.is_none() && rng.chance(0.4) {
+                            for a in ["RIGHT-FIN-A", "RIGHT-FIN-B", "RIGHT-FIN-H", "RIGHT-FIN-D"] {
+                                omit.push((win.name.clone(), a.into()));
+                            }
+                        }
+                        if rng.chance(0.3) {
+                            omit.push((win.name.clone(), "COEFF".into()));
+                        }
+                    }
+                }
+            }
+        }
+    }
+
     ABuilding {
         deviation: if rng.chance(0.4) { 0.0 } else { rng.dec02(0.0, 359.0) as f32 },
         d_perim: if rng.chance(0.5) { rng.dec(0.3, 1.5, 2) as f32 } else { 0.0 },
@@ -815,6 +881,7 @@ pub fn gen_building(rng: &mut Rng, cfg: &BuildCfg) -> ABuilding {
         ventilation: rng.dec(10.0, 200.0, 2) as f32,
         n50_test: if rng.chance(0.3) { Some(rng.dec(0.5, 9.0, 2) as f32) } else { None },
         name: format!("Proyecto {}", rng.below(100_000)),
+        omit,
     }
 }
 
@@ -897,7 +964,7 @@ impl ABuilding {
                 if s.azimuth != 0.0 {
                     b = b.num("AZIMUTH", s.azimuth);
                 }
-                b = b.w("SHAPE", "POLYGON").s("POLYGON", &format!("{}_Pol2", s.name)).w("TYPE", &s.stype).s("SPACE-TYPE", &s.sysconds).s("SYSTEM-CONDITIONS", &s.sysconds).s("SPACE-CONDITIONS", &s.conds).num("MULTIPLIER", s.multiplier).num("MULTIPLIED", 0.0);
+                b = b.w("SHAPE", "POLYGON").s("POLYGON", &format!("{}_Pol2", s.name)).w("TYPE", &s.stype).s("SPACE-TYPE", &s.spacetype).s("SYSTEM-CONDITIONS", &s.sysconds).s("SPACE-CONDITIONS", &s.conds).num("MULTIPLIER", s.multiplier).num("MULTIPLIED", 0.0);
                 if let Some(i) = s.inside {
                     b = b.w("perteneceALaEnvolventeTermica", if i { "SI" } else { "NO" });
                 }
@@ -964,6 +1031,11 @@ impl ABuilding {
         out.extend(self.sys_conds.iter().cloned());
         out.extend(self.schedules.iter().cloned());
         out.extend(self.bridges.iter().cloned());
+        for (name, attr) in &self.omit {
+            for b in out.iter_mut().filter(|b| &b.name == name) {
+                b.remove(attr);
+            }
+        }
         out
     }
 
